@@ -361,6 +361,36 @@ func (n *ForNode) Render(w io.Writer, ctx *RenderContext) error {
 	return n.renderForLoop(w, ctx, seq)
 }
 
+// saveLoopVariables records the current bindings of the names a for loop assigns
+// ("loop", the value variable and the key variable) and returns a function that
+// restores them.
+func (n *ForNode) saveLoopVariables(ctx *RenderContext) func() {
+	names := []string{"loop", n.valueVar}
+	if n.keyVar != "" {
+		names = append(names, n.keyVar)
+	}
+
+	type binding struct {
+		value interface{}
+		bound bool
+	}
+	saved := make([]binding, len(names))
+	for i, name := range names {
+		value, bound := ctx.context[name]
+		saved[i] = binding{value, bound}
+	}
+
+	return func() {
+		for i, name := range names {
+			if saved[i].bound {
+				ctx.context[name] = saved[i].value
+			} else {
+				delete(ctx.context, name)
+			}
+		}
+	}
+}
+
 // renderForLoop handles the actual for loop iteration after sequence is determined
 func (n *ForNode) renderForLoop(w io.Writer, ctx *RenderContext, seq interface{}) error {
 
@@ -380,8 +410,12 @@ func (n *ForNode) renderForLoop(w io.Writer, ctx *RenderContext, seq interface{}
 	// Get the value as a reflect.Value for iteration
 	val := reflect.ValueOf(seq)
 
-	// Create a new context for the loop variables
+	// The loop variables live in the enclosing context
 	loopCtx := ctx
+
+	// They are scoped to the loop: remember what they hide (an enclosing loop's
+	// "loop", a variable of the same name) and put it back when the loop is done
+	defer n.saveLoopVariables(ctx)()
 
 	// Keep track of loop variables
 	loopVars := map[string]interface{}{
